@@ -301,11 +301,31 @@ func (r *replica) release() {
 	gate.mu.Unlock()
 	r.up = false
 	r.ctl = nil
-	mbt.Catch(func() {
+	r.stopRaft()
+	mbt.Catch(func() { // (after raft: an Apply in flight still needs the execute / commit hooks)
 		if r.ang != nil {
 			r.ang.VerifAsmEvents().Stop()
 		}
 	})
+	mbt.Catch(func() {
+		if r.ang != nil {
+			r.ang.Destroy()
+		} else {
+			for _, d := range r.dbs {
+				d.Close()
+			}
+		}
+	})
+	mbt.Catch(func() {
+		if r.app != nil {
+			r.app.Stop()
+		}
+	})
+	r.app, r.ang, r.cs, r.fsm, r.dbs = nil, nil, nil, nil, nil
+}
+
+// stopRaft shuts the node's raft instance down and waits for it: afterwards no FSM.Apply is running.
+func (r *replica) stopRaft() {
 	mbt.Catch(func() {
 		if r.cs != nil {
 			// raft.Shutdown waits for its FSM goroutine; an Apply in flight blocks on appliedCh, which run() stops
@@ -326,21 +346,7 @@ func (r *replica) release() {
 			close(stop)
 		}
 	})
-	mbt.Catch(func() {
-		if r.ang != nil {
-			r.ang.Destroy()
-		} else {
-			for _, d := range r.dbs {
-				d.Close()
-			}
-		}
-	})
-	mbt.Catch(func() {
-		if r.app != nil {
-			r.app.Stop()
-		}
-	})
-	r.app, r.ang, r.cs, r.fsm, r.dbs = nil, nil, nil, nil, nil
+	r.cs = nil
 }
 
 type obs struct {
